@@ -76,7 +76,7 @@ def keys_of(flavour: str, menu: str | None, n: int) -> list:
 
 _G = SimpleNamespace(
     active=False, cache_dir="", ctl="", plan={}, block=set(), killer=None, wait_for=[], kill="group",
-    logfd=-1, key=0, labels=[], keys=[], fds={}, done_flags=True,
+    logfd=-1, key=0, labels=[], keys=[], fds={}, done_flags=True, shared_cache=None,
 )
 _REAL = SimpleNamespace(open=builtins.open, os_open=os.open, replace=os.replace, rename=os.rename)
 
@@ -376,7 +376,13 @@ def run_once(job: dict):
     n = job["nk"]
     cache = None
     if job["cache"]:
-        cache = Cache(tmp_dir=Path(job["cache_dir"]), name_fn=k_name, load_fn=k_load, save_fn=k_save)
+        if job.get("cache_obj") == "shared":
+            # ONE Cache object for the whole in-process history (built once, re-used / re-pointed by the caller)
+            if _G.shared_cache is None:
+                _G.shared_cache = Cache(tmp_dir=Path(job["cache_dir"]), name_fn=k_name, load_fn=k_load, save_fn=k_save)
+            cache = _G.shared_cache
+        else:
+            cache = Cache(tmp_dir=Path(job["cache_dir"]), name_fn=k_name, load_fn=k_load, save_fn=k_save)
     par = job["w"] > 0
     if job["flavour"] == "pmap":
         keys = keys_of("pmap", job.get("keys"), n)
@@ -472,6 +478,7 @@ def inproc_main(job: dict) -> dict:
     import shutil
 
     ver, last, runs = 1, None, []
+    job = dict(job)
     for step in job["steps"]:
         op = step["op"]
         if op.startswith("drop"):
@@ -489,14 +496,21 @@ def inproc_main(job: dict) -> dict:
         if op in ("run", "rerun", "rerun*"):
             _log("op", 0, op=op)
             _G.active = True
-            last, js = run_once({**job, "cache": True, "w": step["w"], "ver": ver})
+            nk_run = step.get("nk", job["nk"])          # a run may ask for a prefix of the keys only
+            last, js = run_once({**job, "cache": True, "w": step["w"], "ver": ver, "nk": nk_run})
             _G.active = False
-            _, ref = run_once({**job, "cache": False, "w": 0, "ver": ver})
+            _, ref = run_once({**job, "cache": False, "w": 0, "ver": ver, "nk": nk_run})
             stored = sum(os.path.exists(os.path.join(job["cache_dir"], _default_cache().name_fn(k))) for k in _G.keys)
             runs.append({"op": op, "ver": ver, "w": step["w"], "out": js, "ref": ref, "stored": stored})
         elif op == "clear":
             _log("op", 0, op=op)
-            shutil.rmtree(job["cache_dir"], ignore_errors=True)
+            if job.get("clear_how") == "repoint" and _G.shared_cache is not None:
+                # the caller points the SAME Cache object at a directory that does not exist yet
+                job["cache_dir"] = job["cache_dir"] + "_next"
+                _G.cache_dir = os.path.abspath(job["cache_dir"])
+                _G.shared_cache.tmp_dir = Path(job["cache_dir"])
+            else:
+                shutil.rmtree(job["cache_dir"], ignore_errors=True)     # the documented way to invalidate
             ver += 1
         elif op == "mutate":
             _log("op", 0, op=op)
